@@ -408,7 +408,7 @@ func ruleOneCache(c *Ctx) {
 		}
 		c.CheckAt("ONECACHE", fmt.Sprintf("service#%d:shares-the-server-history", n), wrc, okF, "the service receives a pointer to something other than the server's own replay-history field (e.g. a per-generation copy): handshakes recorded by one generation are forgotten by the next")
 	}
-	c.Floor("ONECACHE", "service constructions in the server command", n, 2)
+	c.Floor("ONECACHE", "service constructions in the server command", n, 1)
 }
 
 // ---- C08 ----
